@@ -20,6 +20,7 @@ import (
 	"io"
 	"os"
 	"runtime"
+	"sort"
 	"strings"
 	"sync"
 	"time"
@@ -443,11 +444,34 @@ func main() {
 		cls := v.Class
 		// the parking site names the defect; keep it in the class so that different leaks are different findings
 		if i := strings.Index(v.What, ": "); i >= 0 && (strings.HasPrefix(cls, "goroutine_leaked") || cls == "request_blocked_forever") {
-			cls += ":" + strings.ReplaceAll(v.What[i+2:], " ", "")
+			sites := strings.ReplaceAll(v.What[i+2:], " ", "")
+			if cls == "goroutine_leaked_after_row_out_of_window" {
+				// the cause is in the class name already; of the parking sites only the packages are kept, so that
+				// the class (listed as known until D126 is fixed) survives a renaming of the stage functions
+				sites = packagesOf(sites)
+			}
+			cls += ":" + sites
 		}
 		r.Violate(cls, v.Scn+": "+v.What, v)
 	}
 	r.Finish()
+}
+
+// packagesOf reduces "chan(internal_planner.(*ParserPlanner).Process.func2),chan(shared.(*X).Scan)" to
+// "internal_planner+shared".
+func packagesOf(sites string) string {
+	seen := map[string]bool{}
+	var out []string
+	for _, s := range strings.Split(sites, ",") {
+		s = strings.TrimPrefix(s, "chan(")
+		p, _, _ := strings.Cut(s, ".")
+		if p != "" && !seen[p] {
+			seen[p] = true
+			out = append(out, p)
+		}
+	}
+	sort.Strings(out)
+	return strings.Join(out, "+")
 }
 
 func replay(r *ev.Run) {
